@@ -115,6 +115,9 @@ func runC18(c *Ctx, idx int) {
 	f.BlankCap = (idx/3)%2 == 0
 	f.EditSpell = int(mix64(uint64(idx)) % 4)
 	f.RoleSpell = int(mix64(uint64(idx)*7+3) % 8) // 5, 6, 7: as is
+	// only where the descendant role decides (no editable ancestor, no role on the outer table): elsewhere the
+	// outer table is flattened and the nested table, data by its own role, would be mistaken for the table under test
+	f.DescOnNested = mix64(uint64(idx)*13+9)%2 == 0 && !f.Editable && f.Role == ""
 	f.LongPage = mix64(uint64(idx)*11+5)%3 == 0
 	f.Pre = int(mix64(uint64(idx)*5+1) % 8) // 0, 6, 7: no other table
 	if (f.DescRole == "navigation" || f.DescRole == "complementary") && f.LongPage && f.Rows*f.Cols == 1 {
